@@ -172,7 +172,7 @@ broadcast use axiom_terminate_to_nix;
 
 //@ def ARMED_PRE *old(stop_timer) is Some ==> control is Stop || control is Delete || control is NextEnding
 //@ def CH_PARAMS control: Control, done: Flag, $STATE_PARAMS
-//@ def LOOPS3 //@ loop 0 iter=vx_it\n$RAISE_LOOP_PRE\n$INV_SM\n//@ loop 1 iter=vx_it\n$RAISE_LOOP_PRE\n$INV_SM\n//@ loop 2 iter=vx_it\n$RAISE_LOOP_PRE\n$INV_SM
+//@ def LOOPS3 //@ loop each iter=vx_it\n$RAISE_LOOP_PRE\n$INV_SM
 
 // ---- the control handler (select arm 2 of start_job) is verified once per control (group): `requires control is X` selects the
 // arm, every clause is proved for each group, and lemma_control_groups_cover shows the groups are exhaustive. Same extracted body every time.
@@ -213,7 +213,7 @@ broadcast use axiom_terminate_to_nix;
         control is Signal ==> c09_signal($OV, $FV, $ENVS, control->Signal_0) && r is Normally, // OBL:C09.control.signal
         control is Delete ==> n_of($ENVS) == 0 && unchanged($OV, $FV) && r is Break, // OBL:C08+C09.control.delete
         control is NextEnding ==> c09_next_ending($OV, $FV, $ENVS, done.id) && (r is Skip <==> cs_view(&*old(command_state)) is Running), // OBL:C09+C07.control.next_ending
-        control is SyncFunc || control is AsyncFunc ==> c09_func($OV, $FV, $ENVS) && r is Normally, // OBL:C09.control.func
+        control is SyncFunc || control is AsyncFunc ==> c09_func($OV, $FV, $ENVS) && r is Normally, // OBL:C09+C10.control.func
         control is SetSyncSpawnHook ==> c09_set_hooks($OV, $FV, $ENVS, $OV.eh, SpawnHook::Sync(control->SetSyncSpawnHook_0)) && r is Normally, // OBL:C09+C18.control.set_sync_spawn_hook
         control is SetAsyncSpawnHook ==> c09_set_hooks($OV, $FV, $ENVS, $OV.eh, SpawnHook::Async(control->SetAsyncSpawnHook_0)) && r is Normally, // OBL:C09+C18.control.set_async_spawn_hook
         control is UnsetSpawnHook ==> c09_set_hooks($OV, $FV, $ENVS, $OV.eh, SpawnHook::None) && r is Normally, // OBL:C09+C18.control.unset_spawn_hook
